@@ -89,6 +89,11 @@ def data_block(rng, mutate):
             w = rng.randrange(0, cap)
             r = rng.randrange(w + 1, cap + 1)
             e = cap + rng.randrange(1, r - w + 1)
+        if k == 6 and cap >= 2:
+            # three in-range indices in every order relation (also the ones no writer/reader pair produces: r > w > dataEnd, …)
+            vals = sorted(rng.sample(range(cap + 1), 3)) if rng.random() < 0.7 else sorted(rng.choices(range(cap + 1), k=3))
+            rng.shuffle(vals)
+            w, e, r = vals
         if k == 3: cap2 = rng.choice([cap + 1000, 1 << 50, 0]); return DATA_MAGIC + G.u64(3) + G.u64(w) + G.u64(e) + G.u64(cap2) + G.u64(0xdead) + G.u64(r) + bytes(buf)
     return DATA_MAGIC + G.u64(rng.choice([1, 2, 0x7f0000001000])) + G.u64(w) + G.u64(e) + G.u64(cap) + G.u64(0xdeadbeef) + G.u64(r) + bytes(buf)
 
